@@ -162,6 +162,28 @@ class StridedLayoutAttr(MemRefLayoutAttr):
     def get_strides(self):
         return tuple(None if isinstance(s, NoneAttr) else s.data for s in self.strides.data)
 
+    def get_affine_map(self):
+        """as xdsl's StridedLayoutAttr.get_affine_map (assumed contract on the dependency): offset + sum d_i * stride_i,
+        dynamic offset / strides become symbols in order"""
+        from xdsl.ir.affine import AffineConstantExpr, AffineDimExpr, AffineMap, AffineSymExpr
+        nb = 0
+        result = AffineConstantExpr(0)
+        if isinstance(self.offset, IntAttr):
+            result += AffineConstantExpr(self.offset.data)
+        else:
+            result += AffineSymExpr(nb)
+            nb += 1
+        dim = 0
+        for stride in self.strides.data:
+            if isinstance(stride, IntAttr):
+                e = AffineConstantExpr(stride.data)
+            else:
+                e = AffineSymExpr(nb)
+                nb += 1
+            result += AffineDimExpr(dim) * e
+            dim += 1
+        return AffineMap(len(self.strides.data), nb, (result,))
+
     def get_offset(self):
         return None if isinstance(self.offset, NoneAttr) else self.offset.data
 
@@ -200,6 +222,28 @@ class MemRefType(TypeAttribute, ShapedType, ContainerType):
         for s in self.shape.data:
             r = r * s.data
         return r
+
+    def get_affine_map(self):
+        """as xdsl's MemRefType.get_affine_map (assumed contract on the dependency): the layout's map, or the
+        row-major map of the shape for the default layout"""
+        from xdsl.ir.affine import AffineConstantExpr, AffineDimExpr, AffineMap
+        if isinstance(self.layout, NoneAttr):
+            n = len(self.shape.data)
+            result = AffineConstantExpr(0)
+            stride = 1
+            terms = []
+            for d in reversed(range(n)):
+                terms.append((d, stride))
+                stride = stride * self.shape.data[d].data
+            for d, st in reversed(terms):
+                result += AffineDimExpr(d) * st
+            return AffineMap(n, 0, (result,))
+        return self.layout.get_affine_map()
+
+    def get_affine_map_in_bytes(self):
+        from xdsl.ir.affine import AffineMap
+        m = self.get_affine_map()
+        return AffineMap(m.num_dims, m.num_symbols, tuple(r * self.element_type.size for r in m.results))
 
 
 class TensorType(TypeAttribute, ShapedType, ContainerType):
